@@ -14,12 +14,15 @@ var c19Authorizers = []string{
 	`time(2026-01-01T00:00:00Z); user("alice"); check if user($u); allow if true;`,
 	`resource("file2"); owner("alice", "file2"); allowed($r) <- owner($u, $r), resource($r); allow if allowed($r); deny if true;`,
 	`operation("write"); check if operation($op), ["read", "write"].contains($op); allow if operation("write");`,
+	`resource("file1"); check if resource($r), $r.matches("^file[0-9]$"); allow if resource($x), $x.matches("1$"); deny if true;`,
+	`operation("read"); user("zoe"); check if operation($op), ["write", "read", "admin", "append"].contains($op); check if user($u), ["zoe", "bob", "alice"].contains($u); allow if true;`,
 }
 
 var c19Blocks = []string{
 	`fresh_fact("concurrent", 42); derived($x) <- fresh_fact($x, $y), $y > 1; check if resource($r);`,
 	`right("file1", "read"); right("file2", "read"); seen($f) <- right($f, "read");`,
 	`note("a new string here"); check if operation($o), $o.starts_with("re") or operation("write");`,
+	`seen($r) <- resource($r), $r.matches("^fi.*[0-9]$"); tags(["z", "b", "a"]); check if resource($r), $r.matches("file");`,
 }
 
 var c19Facts = []string{`right("file1", "read")`, `fresh_fact("x", 1)`, `resource("file9")`}
